@@ -137,8 +137,7 @@ func init() {
 						if cal == nil || cal.Signature.Recv() == nil {
 							continue
 						}
-						r := cal.Signature.Recv().Type().String()
-						if !(strings.HasSuffix(r, "nfa.PikeVM") || strings.HasSuffix(r, "nfa.BoundedBacktracker")) {
+						if !nfaEngineMethod(cal) {
 							continue
 						}
 						for _, a := range c.Common().Args[1:] {
